@@ -227,75 +227,6 @@ theorem applyBatch_transfers_total (P : Params) (h : Nat) (e : TxEntry) (rates a
 
 /-! ### recording the arrival -/
 
-/-- the per-transaction part of `recordHistory` for a plain transfer at index `k`, on a history in
-    which every row of this entry has a smaller index: succeeds, and the rows of this entry now have
-    indexes below `k + 1` -/
-theorem recordHistoryTx_ok (P : Params) (hash : Hash) (k : Nat) (t : Tx) (hnc : t.isConversion P = false) (s : DB)
-    (hinv : ∀ r ∈ s.histT, r.hash = hash → r.txIndex < (k : Int)) :
-    ∃ s', (do
-        insertLookup { hash := hash, txIndex := k, addr := t.inAddr }
-        if t.isConversion P then
-          insertHistTx { hash := hash, txIndex := k, action := 2, fromAddr := t.inAddr, fromAsset := tickerName P t.inType,
-                         fromAmount := t.inAmount, toAsset := tickerName P t.conversion, toAmount := 0, outputs := "",
-                         fromT := t.inType, toT := t.conversion }
-        else do
-          M.forEach t.transfers fun tr => insertLookup { hash := hash, txIndex := k, addr := tr.addr }
-          insertHistTx { hash := hash, txIndex := k, action := 1, fromAddr := t.inAddr, fromAsset := tickerName P t.inType,
-                         fromAmount := t.inAmount, toAsset := "", toAmount := 0,
-                         outputs := renderOutputs (t.transfers.map fun tr => (tr.addr, (tr.amount : Int))),
-                         fromT := t.inType, outs := t.transfers.map fun tr => (tr.addr, tr.amount) } : LM Unit) s = .ok () s' ∧
-      (∀ r ∈ s'.histT, r.hash = hash → r.txIndex < ((k + 1 : Nat) : Int)) ∧ s'.histB = s.histB := by
-  simp only [hnc, Bool.false_eq_true, if_false]
-  -- the lookups keep the two history tables
-  have hlk : ∀ (l : List Transfer) (s0 : DB), ∃ s1, M.forEach l (fun tr => insertLookup { hash := hash, txIndex := k, addr := tr.addr }) s0 = .ok () s1 ∧
-      s1.histT = s0.histT ∧ s1.histB = s0.histB := by
-    intro l
-    induction l with
-    | nil => intro s0; exact ⟨s0, rfl, rfl, rfl⟩
-    | cons tr rest ih =>
-      intro s0
-      simp only [M.forEach]
-      obtain ⟨s1, h1, e1, e2⟩ := ih (if s0.histL.any (fun x => x.hash == hash && x.txIndex == (k : Int) && x.addr == tr.addr) then s0
-          else { s0 with histL := s0.histL ++ [{ hash := hash, txIndex := k, addr := tr.addr }] })
-      refine ⟨s1, ?_, ?_, ?_⟩
-      · show (insertLookup { hash := hash, txIndex := k, addr := tr.addr } >>= fun _ => M.forEach rest _) s0 = _
-        rw [M.bind_run]
-        simp only [insertLookup, M.guarded]
-        exact h1
-      · rw [e1]; split <;> rfl
-      · rw [e2]; split <;> rfl
-  rw [M.bind_run]
-  simp only [insertLookup, M.guarded]
-  generalize hs0 : (if s.histL.any (fun x => x.hash == hash && x.txIndex == (k : Int) && x.addr == t.inAddr) then s
-      else { s with histL := s.histL ++ [{ hash := hash, txIndex := k, addr := t.inAddr }] }) = s0
-  have hT0 : s0.histT = s.histT := by rw [← hs0]; split <;> rfl
-  have hB0 : s0.histB = s.histB := by rw [← hs0]; split <;> rfl
-  obtain ⟨s1, h1, hT1, hB1⟩ := hlk t.transfers s0
-  rw [M.bind_run, h1]
-  simp only [insertHistTx, M.guarded]
-  have hno : (s1.histT.any fun x => x.hash == hash && x.txIndex == (k : Int)) = false := by
-    rw [hT1, hT0]
-    apply Bool.eq_false_iff.2
-    intro hany
-    obtain ⟨r, hr, hc⟩ := List.any_eq_true.1 hany
-    simp only [Bool.and_eq_true, beq_iff_eq] at hc
-    have := hinv r hr hc.1
-    omega
-  simp only [hno, Bool.false_eq_true, if_false]
-  refine ⟨_, rfl, ?_, ?_⟩
-  · intro r hr hh
-    simp only [hT1, hT0] at hr
-    rcases List.mem_append.1 hr with hr | hr
-    · have := hinv r hr hh; push_cast; omega
-    · simp only [List.mem_singleton] at hr
-      subst hr
-      push_cast
-      show (k : Int) < (k : Int) + 1
-      omega
-  · show s1.histB = s.histB
-    rw [hB1, hB0]
-
-
 /-- the body of `recordHistory`'s loop -/
 def recordHistoryTx (P : Params) (hash : Hash) (idx : Nat) (t : Tx) : LM Unit := do
   insertLookup { hash := hash, txIndex := idx, addr := t.inAddr }
@@ -310,28 +241,90 @@ def recordHistoryTx (P : Params) (hash : Hash) (idx : Nat) (t : Tx) : LM Unit :=
                    outputs := renderOutputs (t.transfers.map fun tr => (tr.addr, (tr.amount : Int))),
                    fromT := t.inType, outs := t.transfers.map fun tr => (tr.addr, tr.amount) }
 
+/-- what the history inserts leave alone -/
+def sameButHistory (s s' : DB) : Prop := s'.histB = s.histB ∧ s'.holding = s.holding
+
+theorem lookup_keeps (r : HistLookup) (s0 : DB) :
+    ∃ s1, insertLookup r s0 = .ok () s1 ∧ s1.histT = s0.histT ∧ sameButHistory s0 s1 := by
+  simp only [insertLookup, M.guarded]
+  refine ⟨_, rfl, ?_, ?_, ?_⟩ <;> (split <;> rfl)
+
+theorem lookups_keep (hash : Hash) (k : Nat) : ∀ (l : List Transfer) (s0 : DB),
+    ∃ s1, M.forEach l (fun tr => insertLookup { hash := hash, txIndex := k, addr := tr.addr }) s0 = .ok () s1 ∧
+      s1.histT = s0.histT ∧ sameButHistory s0 s1
+  | [], s0 => ⟨s0, rfl, rfl, rfl, rfl⟩
+  | tr :: rest, s0 => by
+    obtain ⟨s1, h1, e1, e2, e3⟩ := lookup_keeps { hash := hash, txIndex := k, addr := tr.addr } s0
+    obtain ⟨s2, h2, f1, f2, f3⟩ := lookups_keep hash k rest s1
+    refine ⟨s2, ?_, by rw [f1, e1], by rw [f2, e2], by rw [f3, e3]⟩
+    simp only [M.forEach]
+    show (insertLookup { hash := hash, txIndex := k, addr := tr.addr } >>= fun _ => M.forEach rest _) s0 = _
+    rw [M.bind_run, h1]
+    exact h2
+
+/-- the per-transaction part of `recordHistory` at index `k`, on a history in which every row of
+    this entry has a smaller index: succeeds, and the rows of this entry now have indexes below `k + 1` -/
+theorem recordHistoryTx_ok (P : Params) (hash : Hash) (k : Nat) (t : Tx) (s : DB)
+    (hinv : ∀ r ∈ s.histT, r.hash = hash → r.txIndex < (k : Int)) :
+    ∃ s', recordHistoryTx P hash k t s = .ok () s' ∧
+      (∀ r ∈ s'.histT, r.hash = hash → r.txIndex < ((k + 1 : Nat) : Int)) ∧ sameButHistory s s' := by
+  -- inserting the row of index k into a table whose rows of this entry have smaller indexes
+  have hins : ∀ (row : HistTx) (s1 : DB), row.hash = hash → row.txIndex = (k : Int) → s1.histT = s.histT → sameButHistory s s1 →
+      ∃ s', insertHistTx row s1 = .ok () s' ∧
+        (∀ r ∈ s'.histT, r.hash = hash → r.txIndex < ((k + 1 : Nat) : Int)) ∧ sameButHistory s s' := by
+    intro row s1 hrh hri hT1 hsame
+    simp only [insertHistTx, M.guarded]
+    have hno : (s1.histT.any fun x => x.hash == row.hash && x.txIndex == row.txIndex) = false := by
+      rw [hT1, hrh, hri]
+      apply Bool.eq_false_iff.2
+      intro hany
+      obtain ⟨r, hr, hc⟩ := List.any_eq_true.1 hany
+      simp only [Bool.and_eq_true, beq_iff_eq] at hc
+      have := hinv r hr hc.1
+      omega
+    simp only [hno, Bool.false_eq_true, if_false]
+    refine ⟨_, rfl, ?_, hsame⟩
+    intro r hr hh
+    simp only [hT1] at hr
+    rcases List.mem_append.1 hr with hr | hr
+    · have := hinv r hr hh; push_cast; omega
+    · simp only [List.mem_singleton] at hr
+      subst hr
+      rw [hri]
+      push_cast
+      omega
+  unfold recordHistoryTx
+  obtain ⟨s0, h0, hT0, hsame0⟩ := lookup_keeps { hash := hash, txIndex := k, addr := t.inAddr } s
+  rw [M.bind_run, h0]
+  by_cases hcv : t.isConversion P = true
+  · simp only [hcv, if_true]
+    exact hins _ s0 rfl rfl hT0 hsame0
+  · have hcf : t.isConversion P = false := by simpa using hcv
+    simp only [hcf, Bool.false_eq_true, if_false]
+    obtain ⟨s1, h1, hT1, hB1, hH1⟩ := lookups_keep hash k t.transfers s0
+    rw [M.bind_run, h1]
+    exact hins _ s1 rfl rfl (by rw [hT1, hT0]) ⟨by rw [hB1, hsame0.1], by rw [hH1, hsame0.2]⟩
+
 theorem recordHistoryLoop_ok (P : Params) (hash : Hash) :
-    ∀ (txs : List Tx) (k : Nat) (s : DB), (∀ t ∈ txs, t.isConversion P = false) →
+    ∀ (txs : List Tx) (k : Nat) (s : DB),
       (∀ r ∈ s.histT, r.hash = hash → r.txIndex < (k : Int)) →
-      ∃ s', M.forEach (txs.zipIdx k) (fun p => recordHistoryTx P hash p.2 p.1) s = .ok () s' ∧ s'.histB = s.histB
-  | [], _, s, _, _ => ⟨s, rfl, rfl⟩
-  | t :: rest, k, s, hnc, hinv => by
-    obtain ⟨s1, h1, hinv1, hB1⟩ := recordHistoryTx_ok P hash k t (hnc t List.mem_cons_self) s hinv
-    obtain ⟨s2, h2, hB2⟩ := recordHistoryLoop_ok P hash rest (k + 1) s1 (fun q hq => hnc q (List.mem_cons_of_mem _ hq)) hinv1
-    refine ⟨s2, ?_, by rw [hB2, hB1]⟩
+      ∃ s', M.forEach (txs.zipIdx k) (fun p => recordHistoryTx P hash p.2 p.1) s = .ok () s' ∧ sameButHistory s s'
+  | [], _, s, _ => ⟨s, rfl, rfl, rfl⟩
+  | t :: rest, k, s, hinv => by
+    obtain ⟨s1, h1, hinv1, hB1, hH1⟩ := recordHistoryTx_ok P hash k t s hinv
+    obtain ⟨s2, h2, hB2, hH2⟩ := recordHistoryLoop_ok P hash rest (k + 1) s1 hinv1
+    refine ⟨s2, ?_, by rw [hB2, hB1], by rw [hH2, hH1]⟩
     rw [List.zipIdx_cons]
     simp only [M.forEach]
     show (recordHistoryTx P hash k t >>= fun _ => M.forEach (rest.zipIdx (k + 1)) (fun p => recordHistoryTx P hash p.2 p.1)) s = _
-    rw [M.bind_run]
-    have : recordHistoryTx P hash k t s = .ok () s1 := h1
-    rw [this]
+    rw [M.bind_run, h1]
     exact h2
 
-/-- **Recording the arrival of a fresh transfer-only entry succeeds.** -/
+/-- **Recording the arrival of a fresh entry succeeds**, whatever it contains, and leaves the
+    holding table alone. -/
 theorem recordHistory_ok (P : Params) (h bo : Nat) (e : TxEntry) (s : DB)
-    (hnc : ∀ t ∈ e.txs, t.isConversion P = false)
     (hnrec : s.isRecorded e.hash = false) (hfresh : ∀ r ∈ s.histT, r.hash ≠ e.hash) :
-    ∃ s', recordHistory P h bo e s = .ok () s' := by
+    ∃ s', recordHistory P h bo e s = .ok () s' ∧ s'.holding = s.holding := by
   unfold recordHistory
   rw [M.bind_run]
   simp only [insertHistBatch, M.guarded]
@@ -344,10 +337,10 @@ theorem recordHistory_ok (P : Params) (h bo : Nat) (e : TxEntry) (s : DB)
     rw [hnrec] at this
     cases this
   simp only [hno, Bool.false_eq_true, if_false]
-  obtain ⟨s', h', _⟩ := recordHistoryLoop_ok P e.hash e.txs 0
-    { s with histB := s.histB ++ [{ hash := e.hash, height := h, blockorder := bo, ts := e.ts, executed := 0 }] } hnc
+  obtain ⟨s', h', _, hH⟩ := recordHistoryLoop_ok P e.hash e.txs 0
+    { s with histB := s.histB ++ [{ hash := e.hash, height := h, blockorder := bo, ts := e.ts, executed := 0 }] }
     (fun r hr hh => absurd hh (hfresh r hr))
-  exact ⟨s', h'⟩
+  exact ⟨s', h', hH⟩
 
 /-- **No transfer-only entry can fail the block.** An entry that validates at this height, holds
     only transfers (any number of transactions and outputs, any amounts, funded or not) and has not
@@ -364,7 +357,7 @@ theorem transfer_entry_never_fails (P : Params) (h : Nat) (keymr : String) (bo :
   by_cases hc : (e.validAt P h && !s.isReplay e.hash && !s.isRecorded e.hash) = true
   · rw [if_pos hc]
     simp only [Bool.and_eq_true, Bool.not_eq_true'] at hc
-    obtain ⟨s1, h1⟩ := recordHistory_ok P h bo e s (fun t ht => (hplain t ht).notConv) hc.2 hfresh
+    obtain ⟨s1, h1, _⟩ := recordHistory_ok P h bo e s hc.2 hfresh
     rw [M.bind_run, h1]
     have hnoconv : e.hasConversions P = false := by
       unfold TxEntry.hasConversions
@@ -379,6 +372,35 @@ theorem transfer_entry_never_fails (P : Params) (h : Nat) (keymr : String) (bo :
     rcases hv with rfl | rfl
     · exact ⟨s2, rfl⟩
     · exact ⟨_, rfl⟩
+  · rw [if_neg hc]
+    exact ⟨s, rfl⟩
+
+
+/-- **The arrival of an entry with conversions never fails the block either**: it is recorded and
+    put into holding (`hhold`: it is not held yet — an entry is held only after being recorded, and a
+    recorded entry is skipped). What can fail a block is the EXECUTION of held conversions, where the
+    recorded findings of this property live. -/
+theorem conversion_entry_arrival_never_fails (P : Params) (h : Nat) (keymr : String) (bo : Nat) (e : TxEntry) (s : DB)
+    (hconv : e.hasConversions P = true) (hfresh : ∀ r ∈ s.histT, r.hash ≠ e.hash)
+    (hhold : ∀ r ∈ s.holding, r.entry.hash ≠ e.hash) :
+    ∃ s', applyTxEntry P h keymr bo e s = .ok () s' := by
+  unfold applyTxEntry
+  rw [M.bind_run]
+  simp only [M.get_run]
+  by_cases hc : (e.validAt P h && !s.isReplay e.hash && !s.isRecorded e.hash) = true
+  · rw [if_pos hc]
+    simp only [Bool.and_eq_true, Bool.not_eq_true'] at hc
+    obtain ⟨s1, h1, hH⟩ := recordHistory_ok P h bo e s hc.2 hfresh
+    rw [M.bind_run, h1]
+    simp only [hconv, if_true, insertHolding, M.guarded]
+    have hno : (s1.holding.any fun x => x.entry.hash == e.hash) = false := by
+      rw [hH]
+      apply Bool.eq_false_iff.2
+      intro hany
+      obtain ⟨r, hr, hcx⟩ := List.any_eq_true.1 hany
+      exact hhold r hr (by simpa using hcx)
+    simp only [hno, Bool.false_eq_true, if_false]
+    exact ⟨_, rfl⟩
   · rw [if_neg hc]
     exact ⟨s, rfl⟩
 
